@@ -20,6 +20,41 @@ import printer
 import vlib
 
 
+# Templates outside Lang (letrec, binders in nested blocks / if arms / tuples): the property itself is checked -
+# the program with the template binder named t against the one with the binder named u (Lockstep.tla).
+# {B} is the template's binder, {A} the name the use site mentions.
+TABLE_TEMPLATES = {
+    "letrec_beside": "`{ { letrec {B} = |n| { if (n > 0) { n + {B}(n - 1) } else { 0 } }\n {B}(3) } + $c }",
+    "letrec_enclosing": "`{ letrec {B} = |n| { if (n > 0) { n + {B}(n - 1) } else { 0 } }\n {B}(3) + $c }",
+    "lambda_beside": "`{ (|{B}| {B} * 2)(10) + $c }",
+    "let_in_if_arm": "`{ (if (1) { let {B} = 10\n {B} } else { 0 }) + $c }",
+    "tuple_let_beside": "`{ { let ({B}, w) = (10, 20)\n {B} + w } + $c }",
+    "let_after_splice": "`{ $c + { let {B} = 10\n {B} * 3 } }",
+    "fnlet_beside": "`{ { let {B} = |v| v * 2\n {B}(5) } + $c }",
+    "nested_block_let": "`{ { { let {B} = 10\n {B} } + 1 } * 2 + $c }",
+}
+TABLE_USES = {
+    "global_fn": ("fn {A}(v){ v + 100 }\n", "m!(`{A}(1))"),
+    "global_let": ("let {A} = 7\n", "m!(`({A} * 1))"),
+    "local_let": ("", "{ let {A} = 5\n m!(`({A} + 0)) }"),
+    "local_fn": ("", "{ let {A} = |v| v + 100\n m!(`{A}(1)) }"),
+}
+
+
+def table_cells():
+    out = []
+    for tn, tmpl in TABLE_TEMPLATES.items():
+        for un, (defs, use) in TABLE_USES.items():
+            for a in ("t", "u"):
+                pair = []
+                for b in ("t", "u"):
+                    src = (f"{defs.replace('{A}', a)}#stage(macro)\nfn m(c){{\n  {tmpl.replace('{B}', b)}\n}}\n#stage(main)\n"
+                           f"fn dsp(){{\n  {use.replace('{A}', a)}\n}}\n")
+                    pair.append(src)
+                out.append((f"{tn}/{un}/A={a}", pair[0], pair[1], a))
+    return out
+
+
 def hyg_cfg(name, mode, invariants):
     path = os.path.join(vlib.TLA_DIR, name + ".cfg")
     with open(path, "w") as f:
@@ -85,10 +120,37 @@ def run(tier):
             records.append({"id": rid, "a": langpipe.side(a[be], with_words=False), "b": langpipe.side(b[be], with_words=False),
                             "cmpwords": False})
             meta[rid] = (c, twin)
+    # templates outside Lang: binder named t against binder named u
+    cells = table_cells()
+    treqs = []
+    for name, st_, su_, a in cells:
+        treqs.append({"id": f"{name}|t", "src": st_, "n": 3, "backends": ["vm", "wasm"], "sched": True})
+        treqs.append({"id": f"{name}|u", "src": su_, "n": 3, "backends": ["vm", "wasm"], "sched": True})
+    tres = {req["id"]: (out, crash) for req, out, crash in vlib.run_harness("run", treqs, timeout_per_req=20)}
+    for name, st_, su_, a in cells:
+        (ot, ct), (ou, cu) = tres[f"{name}|t"], tres[f"{name}|u"]
+        bad_src = st_ if a == "t" else su_            # the twin in which the two names coincide
+        if ct or cu or ot is None or ou is None:
+            chk.violation(f"runtime process died on table cell {name}: {ct or cu}\n{bad_src}", {"src": bad_src, "cell": name},
+                          key=vlib.canon_key(bad_src))
+            continue
+        for be in ("vm", "wasm"):
+            rid = f"table:{name}|{be}"
+            sa, sb = langpipe.side(ot[be], with_words=False), langpipe.side(ou[be], with_words=False)
+            for s_ in (sa, sb):
+                if s_["status"] in ("reject", "error", "nodsp"):
+                    s_["status"] = "refused"
+            records.append({"id": rid, "a": sa, "b": sb, "cmpwords": False})
+            meta[rid] = ({"table": name, "src": bad_src}, None)
+    chk.cov["table_cells"] = len(cells)
     fails = langpipe.validate_lockstep(chk, records, "c10")
     srcs = {cell_id(rep["cell"]): printer.program(rep["staged"]) for rep in reps}
     for rid, f in fails.items():
         c, twin = meta[rid]
+        if twin is None:
+            chk.violation(f"{rid.split('|')[1]}: renaming the template binder changes the program ({f['what']} at step {f['at']}): "
+                          f"table cell {c['table']}\n{c['src']}", {"src": c["src"], "cell": c["table"]}, key=vlib.canon_key(c["src"]))
+            continue
         # reported under the cell whose names coincide (the same source the comparison with the specification names)
         bad = c if c["A"] == c["B"] else twin
         src = srcs[cell_id(bad)]
